@@ -11,8 +11,11 @@ import "verif/internal/core"
 const Implemented = true
 
 func Run(r *core.Run) {
+	// (a) and (c) are independent and both CPU-bound in phases: run them side by side
+	done := make(chan struct{})
+	go func() { defer close(done); runPreParams(r) }()
 	runInputs(r)
-	runPreParams(r)
+	<-done
 	runSchedules(r)
 
 	ev := r.Get("gen_calls") + r.Get("validate_calls") + r.Get("ntilde_calls") + r.Get("sampler_calls") +
